@@ -94,6 +94,15 @@ Fixpoint mism (i : nat) (cs : list case) : list (nat * nat) :=
   end.
 Definition M := Eval vm_compute in mism 0 cases.
 Print M.
+(* the scope of theorem C20_eval_matches, decided in the kernel for every case *)
+Fixpoint scoped (i : nat) (cs : list case) : list nat :=
+  match cs with
+  | [] => []
+  | (src, en, Some (Some e), Some _, _) :: rest => if in_scope e en then i :: scoped (S i) rest else scoped (S i) rest
+  | _ :: rest => scoped (S i) rest
+  end.
+Definition SC := Eval vm_compute in scoped 0 cases.
+Print SC.
 """
 
 
@@ -132,7 +141,8 @@ def run(ctx):
     usable = [r for r in rows if r["tree"] not in ("UNSUP", "PANIC")]
     unsup = len(rows) - len(usable)
     mism_parse, mism_eval, mism_spec = [], [], []
-    n_eval = n_spec = 0
+    n_eval = n_spec = n_scope = 0
+    scope_contra = []
     shard = 600
     for sh in range(0, len(usable), shard):
         part = usable[sh:sh + shard]
@@ -152,12 +162,27 @@ def run(ctx):
             d = {"src": bytes.fromhex(r["src"]).decode("latin1"), "env": r["env"], "go_tree": r["tree"][:300],
                  "go": [r["val"], r["err"], r["panic"], r["env_out"]], "ref": [r.get("ref_val"), r.get("ref_err"), r.get("ref_env")]}
             {1: mism_parse, 2: mism_eval, 3: mism_spec}[int(code)].append(d)
+        msc = re.search(r"SC\s*=\s*(\[[^\]]*\])", out)
+        if not msc:
+            ctx.broken.append(("correspondence:code-eval", "no scope list in coqc output: " + out[-400:]))
+            return
+        for i in re.findall(r"(\d+)(?:%nat)?", msc.group(1)):
+            r = part[int(i)]
+            n_scope += 1
+            # inside the proved scope the theorem says Go = bash's rule; an observation to the contrary means
+            # the model, the Spec or the reference evaluator misdescribes something
+            if "arithm_differs_from_bash_rule" in (r.get("fails") or []) or "arithm_panics" in (r.get("fails") or []):
+                scope_contra.append({"src": bytes.fromhex(r["src"]).decode("latin1"), "env": r["env"], "go": [r["val"], r["err"]],
+                                     "ref": [r.get("ref_val"), r.get("ref_err")]})
         n_eval += sum(1 for r in part if r["eval"])
         n_spec += sum(1 for r in part if r.get("has_ref") and r["ref_err"] != 3 and r["eval"])
     ctx.leg("code:Parser.Arithmetic tree vs ArithSyntax.parse_text (vm_compute in kernel)", len(usable), mism_parse,
             note="%d cases outside the model AST skipped" % unsup)
     ctx.leg("code:expand.Arithm value/error/panic/final env vs Arith.arithm (vm_compute in kernel)", n_eval, mism_eval)
     ctx.leg("spec:Arith.bash_eval vs harness reference evaluator of bash's rule", n_spec, mism_spec)
+    ctx.leg("scope:cases inside in_scope (theorem C20_eval_matches) on which Go = bash's rule was observed", n_scope, scope_contra,
+            note="in_scope decided in the kernel; of %d evaluated cases" % n_eval)
+    ctx.extra["cases_in_proved_scope"] = n_scope
     # ------------------------------------------------------------ oracle leg / search against real bash
     rc, orows, err = ctx.jsonl([binp, "oracle", "-seed", str(ctx.seed), "-n", str(norac)], timeout=2400)
     if rc != 0 or not orows:
